@@ -131,7 +131,7 @@ func constCfd(r, m int) func([]sexp.Node) sexp.Node {
 	return func([]sexp.Node) sexp.Node { return sexp.T("const", sexp.Int(r), sexp.Int(m)) }
 }
 
-var objFields, ifaceFields []fieldInfo
+var objFields, ifaceFields, mutFields []fieldInfo
 
 func init() {
 	objFields = []fieldInfo{
@@ -157,6 +157,14 @@ func init() {
 	}
 	// the interface declares some of the fields again, with DIFFERENT costs and defaults: a selection
 	// made in the scope of I is costed with I's definition
+	// the mutation root: its own definitions (the scope of an operation's top level is its root type)
+	mutFields = []fieldInfo{
+		{name: "leaf", cfd: constCfd(4, 0)},
+		{name: "obj", ret: "Obj", cfd: nocost},
+		{name: "k5", ret: "Obj", cfd: constCfd(2, 5)},
+		{name: "t", ret: "Obj", args: []argInfo{{name: "i", def: ip(3)}, {name: "j"}},
+			cfd: func(a []sexp.Node) sexp.Node { return sexp.T("tbl", a[0], a[1]) }},
+	}
 	ifaceFields = []fieldInfo{
 		{name: "leaf", cfd: constCfd(2, 0)},
 		{name: "obj", ret: "Obj", cfd: nocost},
@@ -168,6 +176,8 @@ func init() {
 
 func fieldsOf(scope string) []fieldInfo {
 	switch scope {
+	case "Mut":
+		return mutFields
 	case "Obj":
 		return objFields
 	case "I":
@@ -212,6 +222,10 @@ type sel struct {
 	kids   []*sel
 	cond   string // inline: type condition, "" none
 	frag   string // spread
+	// apifu route: a cursor argument written verbatim (name, string literal) and the number of edges
+	// that lie beyond it
+	rawArgName, rawArgVal string
+	between               int
 }
 
 type fragDef struct {
@@ -252,6 +266,7 @@ func (v varDecl) text() string {
 type opDef struct {
 	name      string // "" anonymous
 	shorthand bool   // `{...}` without the query keyword
+	mutation  bool
 	kids      []*sel
 }
 
@@ -355,6 +370,9 @@ func selsText(b *strings.Builder, ss []*sel) {
 					parts = append(parts, fi.args[j].name+": "+a.text())
 				}
 			}
+			if s.rawArgName != "" {
+				parts = append(parts, s.rawArgName+": "+fmt.Sprintf("%q", s.rawArgVal))
+			}
 			if len(parts) > 0 {
 				b.WriteString("(" + strings.Join(parts, ", ") + ")")
 			}
@@ -382,7 +400,11 @@ func (d *doc) text() string {
 	for i := range d.ops {
 		o := &d.ops[i]
 		if !o.shorthand {
-			b.WriteString("query")
+			if o.mutation {
+				b.WriteString("mutation")
+			} else {
+				b.WriteString("query")
+			}
 			if o.name != "" {
 				b.WriteString(" " + o.name)
 			}
@@ -456,6 +478,9 @@ func selNode(s *sel) sexp.Node {
 					kids = append(kids, o(o(), val)) // Argument: Name, Value
 				}
 			}
+		}
+		if s.rawArgName != "" {
+			kids = append(kids, o(o(), o())) // Argument: Name, StringValue
 		}
 		kids = append(kids, dirsNodes(s.dirs)...)
 		if s.hasSet {
@@ -558,6 +583,9 @@ func costFn(scope, name string) func(graphql.FieldCostContext) graphql.FieldCost
 		if scope == "I" {
 			return graphql.FieldResolverCost(2)
 		}
+		if scope == "Mut" {
+			return graphql.FieldResolverCost(4)
+		}
 		return nil
 	case "obj", "iface":
 		return nil
@@ -614,6 +642,9 @@ func costFn(scope, name string) func(graphql.FieldCostContext) graphql.FieldCost
 		if scope == "I" {
 			k = [2]int{5, 3}
 		}
+		if scope == "Mut" {
+			k = [2]int{2, 5}
+		}
 		return func(graphql.FieldCostContext) graphql.FieldCost {
 			return graphql.FieldCost{Resolver: k[0], Multiplier: k[1]}
 		}
@@ -659,10 +690,12 @@ func buildDirectSchema() *graphql.Schema {
 	}
 	obj.Fields = mk("Obj", objFields)
 	iface.Fields = mk("I", ifaceFields)
+	mut := &graphql.ObjectType{Name: "Mut", Fields: mk("Mut", mutFields)}
 	obj.ImplementedInterfaces = []*graphql.InterfaceType{iface}
 	obj.IsTypeOf = func(interface{}) bool { return true }
 	s, err := graphql.NewSchema(&graphql.SchemaDefinition{
-		Query: obj,
+		Query:    obj,
+		Mutation: mut,
 		Directives: map[string]*graphql.DirectiveDefinition{
 			"include": graphql.IncludeDirective,
 			"skip":    graphql.SkipDirective,
@@ -818,6 +851,17 @@ func (g *gen) selsIn(scope string, depth int, fragFrom int, reached map[string]b
 	}
 	var out []*sel
 	for i := 0; i < n; i++ {
+		if scope == "Mut" {
+			switch x := g.r.Intn(10); {
+			case x < 1 && depth > 0:
+				out = append(out, &sel{kind: kInline, scope: scope, cond: rng.Pick(g.r, []string{"", "Mut"}), kids: g.selsIn(scope, depth-1, fragFrom, reached), hasSet: true})
+			case x < 2:
+				out = append(out, &sel{kind: kTypename, scope: scope, name: "__typename", alias: g.alias()})
+			default:
+				out = append(out, g.field(scope, depth, fragFrom))
+			}
+			continue
+		}
 		switch x := g.r.Intn(20); {
 		case x < 3 && fragFrom < len(g.frags):
 			name := g.frags[g.r.Range(fragFrom, len(g.frags)-1)].name
@@ -896,7 +940,14 @@ func genDoc(r *rng.R, hostile bool) *doc {
 				op.name = ""
 			}
 		}
-		op.kids = g.sels("Obj", depth, 0)
+		root := "Obj"
+		if !op.shorthand && r.Chance(1, 6) {
+			op.mutation, root = true, "Mut"
+			if depth < 1 {
+				depth = 1
+			}
+		}
+		op.kids = g.sels(root, depth, 0)
 		d.ops = append(d.ops, op)
 	}
 	d.frags = g.frags
@@ -908,7 +959,11 @@ func genDoc(r *rng.R, hostile bool) *doc {
 	last := &d.ops[len(d.ops)-1]
 	for _, f := range d.frags {
 		if !seen[f.name] {
-			last.kids = append(last.kids, &sel{kind: kSpread, scope: "Obj", frag: f.name})
+			sp := &sel{kind: kSpread, scope: "Obj", frag: f.name}
+			if last.mutation { // a fragment on Obj / I cannot be spread at the mutation root
+				sp = &sel{kind: kField, scope: "Mut", name: "obj", alias: g.alias(), hasSet: true, kids: []*sel{sp}}
+			}
+			last.kids = append(last.kids, sp)
 			reachableFrags(d, last.kids, seen)
 		}
 	}
@@ -1334,10 +1389,20 @@ func buildAPI(dc graphql.FieldCost) *apiUnderTest {
 	item := &graphql.ObjectType{Name: "Item", Fields: map[string]*graphql.FieldDefinition{}}
 	item.Fields["id"] = &graphql.FieldDefinition{Type: graphql.IntType, Resolve: func(ctx graphql.FieldContext) (interface{}, error) { return ctx.Object, nil }}
 	item.Fields["w"] = &graphql.FieldDefinition{Type: graphql.IntType, Cost: graphql.FieldResolverCost(2), Resolve: func(ctx graphql.FieldContext) (interface{}, error) { return 2, nil }}
+	thing := apifu.ConnectionInterface(&apifu.ConnectionInterfaceConfig{
+		NamePrefix:    "Thing",
+		HasTotalCount: true,
+		EdgeFields:    map[string]*graphql.FieldDefinition{"node": {Type: item}},
+	})
 	mkConn := func(prefix string, ci connInfo) *graphql.FieldDefinition {
+		var ifaces []*graphql.InterfaceType
+		if prefix == "ItemKids" {
+			ifaces = []*graphql.InterfaceType{thing}
+		}
 		return apifu.Connection(&apifu.ConnectionConfig{
-			NamePrefix: prefix,
-			Direction:  ci.dir,
+			ImplementedInterfaces: ifaces,
+			NamePrefix:            prefix,
+			Direction:             ci.dir,
 			ResolveAllEdges: func(ctx graphql.FieldContext) (interface{}, func(a, b interface{}) bool, error) {
 				xs := make([]int, ci.avail)
 				for i := range xs {
@@ -1470,6 +1535,32 @@ func (g *apiGen) conn(scope, name string, depth int) *sel {
 	default:
 		s.args = []argSrc{g.countSrc(true)}
 	}
+	s.between = ci.avail
+	if g.r.Chance(1, 4) {
+		// a cursor: the items are 1..avail, the cursor of item j is the serialized int j
+		j := g.r.Range(0, ci.avail+1)
+		c, err := apifu.SerializeCursor(j)
+		if err != nil {
+			panic(err)
+		}
+		switch {
+		case ci.dir == apifu.ConnectionDirectionForwardOnly || (ci.dir == apifu.ConnectionDirectionBidirectional && g.r.Bool()):
+			s.rawArgName, s.rawArgVal = "after", c
+			s.between = ci.avail - j
+			if j > ci.avail {
+				s.between = 0
+			}
+		default:
+			s.rawArgName, s.rawArgVal = "before", c
+			s.between = j - 1
+			if j < 1 {
+				s.between = 0
+			}
+			if j > ci.avail {
+				s.between = ci.avail
+			}
+		}
+	}
 	cs := "Conn:" + scope + ":" + name
 	if g.r.Chance(5, 6) {
 		e := &sel{kind: kField, scope: cs, name: "edges", alias: g.alias(), hasSet: true}
@@ -1489,7 +1580,30 @@ func (g *apiGen) conn(scope, name string, depth int) *sel {
 	if g.r.Chance(1, 3) {
 		s.kids = append(s.kids, &sel{kind: kField, scope: cs, name: "totalCount", alias: g.alias()})
 	}
+	// the kids connection implements the Thing connection interface: selections made through the
+	// interface are costed with the interface's field definitions (ConnectionInterface)
+	if name == "kids" && g.r.Chance(1, 2) {
+		for _, k := range s.kids {
+			if k.name == "edges" && g.r.Bool() {
+				k.kids = []*sel{{kind: kInline, scope: k.scope, cond: "ThingEdge", hasSet: true, kids: k.kids}}
+			}
+		}
+		s.kids = []*sel{{kind: kInline, scope: cs, cond: "ThingConnection", hasSet: true, kids: s.kids}}
+	}
 	return s
+}
+
+// the fields of a selection list, looking through inline fragments
+func flatFields(ss []*sel) []*sel {
+	var out []*sel
+	for _, s := range ss {
+		if s.kind == kInline {
+			out = append(out, flatFields(s.kids)...)
+		} else {
+			out = append(out, s)
+		}
+	}
+	return out
 }
 
 func (g *apiGen) item(depth int) []*sel {
@@ -1513,7 +1627,7 @@ func walkConns(ss []*sel, data interface{}, out *[]sexp.Node) {
 			walkConns(ss, x, out)
 		}
 	case map[string]interface{}:
-		for _, s := range ss {
+		for _, s := range flatFields(ss) {
 			if s.kind != kField {
 				continue
 			}
@@ -1535,17 +1649,17 @@ func walkConns(ss []*sel, data interface{}, out *[]sexp.Node) {
 					first, last = forms[0], forms[1]
 				}
 				var edgesSel *sel
-				for _, k := range s.kids {
+				for _, k := range flatFields(s.kids) {
 					if k.name == "edges" {
 						edgesSel = k
 					}
 				}
 				// the edges are only visible when the document selects them
 				if m, ok := val.(map[string]interface{}); !ok {
-					*out = append(*out, sexp.L(first, last, sexp.Int(ci.avail), sexp.Sym("none")))
+					*out = append(*out, sexp.L(first, last, sexp.Int(s.between), sexp.Sym("none")))
 				} else if edgesSel != nil {
 					if es, ok := m[edgesSel.alias].([]interface{}); ok {
-						*out = append(*out, sexp.L(first, last, sexp.Int(ci.avail), sexp.Int(len(es))))
+						*out = append(*out, sexp.L(first, last, sexp.Int(s.between), sexp.Int(len(es))))
 					}
 				}
 			}
@@ -1613,6 +1727,9 @@ func apiCase(r *rng.R, apis []*apiUnderTest, dcs []graphql.FieldCost) sexp.Node 
 			panic(err)
 		}
 		data, ne = resp.Data, len(resp.Errors)
+		if debug && ne > 0 {
+			fmt.Fprintln(os.Stderr, "DEBUG apifu", q, w.Body.String())
+		}
 		if route == "apifu-ws" {
 			a.reset()
 			data, ne = a.overWS(q, vars, "Q")
